@@ -467,8 +467,22 @@ func c18Options(opt string) []openapi3gen.Option {
 		return []openapi3gen.Option{openapi3gen.UseAllExportedFields(),
 			openapi3gen.CreateComponentSchemas(openapi3gen.ExportComponentSchemasOptions{ExportComponentSchemas: true})}
 	}
+	// a caller-supplied type-name function whose result differs from reflect.Type.Name()
+	tng := openapi3gen.CreateTypeNameGenerator(c18TypeName)
+	switch opt {
+	case "tng":
+		return []openapi3gen.Option{tng}
+	case "tng_export":
+		return []openapi3gen.Option{tng, openapi3gen.CreateComponentSchemas(openapi3gen.ExportComponentSchemasOptions{
+			ExportComponentSchemas: true})}
+	case "tng_exporttop":
+		return []openapi3gen.Option{tng, openapi3gen.CreateComponentSchemas(openapi3gen.ExportComponentSchemasOptions{
+			ExportComponentSchemas: true, ExportTopLevelSchema: true})}
+	}
 	panic("harness: unknown option set " + opt)
 }
+
+func c18TypeName(t reflect.Type) string { return "T_" + t.Name() }
 
 type c18Case struct {
 	T    any    `json:"T"`
@@ -548,6 +562,14 @@ func c18Run(c *Case) []any {
 		dv = append(dv, c18ProjectType(c18Named[n], true))
 	}
 	line["rdefs"] = T{"k": dk, "v": dv}
+	if strings.HasPrefix(tc.Opt, "tng") {
+		// what the installed type-name function answers for the declared types (checked by TLC)
+		tv := []any{}
+		for _, n := range sorted {
+			tv = append(tv, c18TypeName(c18Named[n]))
+		}
+		line["tng"] = T{"k": dk, "v": tv}
+	}
 
 	// generate
 	schemas := openapi3.Schemas{}
